@@ -68,7 +68,7 @@ def gen_plan(seed, tier):
            (4, "barrier"), (8, "stats"), (2, "queue_config"), (2, "vendor"),
            (4, "flow_mod"), (2, "packet_out"), (3, "port_mod"), (1, "hello"),
            (1, "echo_reply"), (2, "unknown_type"), (2, "frame"),
-           (1, "advance")]
+           (1, "advance"), (2, "badlen")]
   for _ in range(n):
     k = r.wpick(kinds)
     st = {"op": k, "xid": _xid(r), "flush": r.chance(0.45)}
@@ -124,6 +124,10 @@ def gen_plan(seed, tier):
     elif k == "unknown_type":
       st["type"] = r.pick([22, 23, 40, 128, 255])
       st["body"] = r.randbytes(r.pick([0, 4, 16])).hex()
+    elif k == "badlen":
+      st["which"] = r.pick(["barrier_long", "set_config_short",
+                            "flow_stats_short", "features_long",
+                            "port_mod_short", "get_config_long"])
     elif k == "frame":
       st["port"] = r.randint(1, nports)
       st["h"] = r.randrange(4)
@@ -258,6 +262,26 @@ def _drive(sim, world, plan, known, hit_known):
       raw = W.msg(st["type"], xid, bytes.fromhex(st["body"]))
       world.send(raw)
       E("error", xid, etype=W.ET_BAD_REQUEST, code=W.BRC_BAD_TYPE, req=raw)
+    elif op == "badlen":
+      # a request of a known type whose declared length disagrees with its
+      # fixed layout: BAD_REQUEST/BAD_LEN carrying this request's xid
+      w = st["which"]
+      if w == "barrier_long":
+        raw = W.msg(W.BARRIER_REQUEST, xid, b"\0\0\0\0")
+      elif w == "set_config_short":
+        raw = W.msg(W.SET_CONFIG, xid, b"")
+      elif w == "flow_stats_short":
+        raw = W.enc_flow_stats_request(xid, {})[:-6]
+        raw = raw[:2] + struct.pack("!H", len(raw)) + raw[4:]
+      elif w == "features_long":
+        raw = W.msg(W.FEATURES_REQUEST, xid, b"\x01\x02")
+      elif w == "port_mod_short":
+        raw = W.enc_port_mod(xid, 1, b"\x02\0\0\0\0\x01", 0, 0)[:-8]
+        raw = raw[:2] + struct.pack("!H", len(raw)) + raw[4:]
+      else:
+        raw = W.msg(W.GET_CONFIG_REQUEST, xid, b"\0" * 8)
+      world.send(raw)
+      E("error", xid, etype=W.ET_BAD_REQUEST, code=W.BRC_BAD_LEN, req=raw)
     elif op == "queue_config":
       raw = W.enc_queue_get_config_request(xid, st["port"])
       world.send(raw)
